@@ -66,7 +66,7 @@ CHECKS = {
             "self form of clone_from_root only", "5 C13"),
     "C16": ("exploration",
             "bounded exhaustive enumeration of addend multisets x permutations x groupings, triples, integers, trees",
-            "has_like_terms over all permutations and groupings of every multiset of addends up to the bound; terms_are_like on all "
+            "has_like_terms over all permutations and groupings of every multiset of addends up to the bound (terms and non-term addends such as 2(y + 1), 2^x, sgn(x)); terms_are_like on all "
             "ordered pairs; every (coefficient, variable, exponent) triple through text -> get_term_ex and make_term -> value / "
             "decomposition; factor(n) against the divisor table for every n up to the bound; all predicates on all small trees.",
             "exact evaluator for make_term values", "5 C16"),
@@ -111,7 +111,7 @@ CHECKS = {
     "C14": ("exploration",
             "bounded exhaustive enumeration of all tree shapes x orders x stop positions on the real code",
             "Every binary tree shape up to the bound (one-child nodes included), the three traversal orders, every stop position and every "
-            "look-up query, compared with reference recursions over the links.",
+            "look-up query, compared with reference recursions over the links; list / look-up, re-link, list / look-up histories on every non-root node.",
             "reference traversals are the textbook recursions", "5 C14"),
     "C15": ("exploration",
             "bounded exhaustive enumeration of all tree shapes x all nodes on the real code",
